@@ -123,7 +123,7 @@ pub fn check_chain(table: &[OpSpec], g: &Group, what: &str, conversions: bool) -
         json!({"text": text.chars().take(2000).collect::<String>(), "operands": n_operands, "table": describe_table(table), "order": what, "got": got.chars().take(2000).collect::<String>(), "expected": format!("{refv:?}").chars().take(2000).collect::<String>()})
     };
     let text_ref: &str = &text;
-    let forms: [(&str, Box<dyn Fn() -> Result<Term, String> + '_>); 8] = [
+    let forms: [(&str, Box<dyn Fn() -> Result<Term, String> + '_>); 10] = [
         ("flat", Box::new(|| ex_msg(ex_msg(F::parse(text_ref))?.eval(&vals)))),
         ("flat_wo_compile", Box::new(|| ex_msg(ex_msg(F::parse_wo_compile(text_ref))?.eval(&vals)))),
         ("flat_eval_vec", Box::new(|| ex_msg(ex_msg(F::parse(text_ref))?.eval_vec(vals.clone())))),
@@ -144,12 +144,35 @@ pub fn check_chain(table: &[OpSpec], g: &Group, what: &str, conversions: bool) -
             "deep_to_flat",
             Box::new(|| ex_msg(ex_msg(F::from_deepex(ex_msg(D::parse(text_ref))?))?.eval(&vals))),
         ),
+        (
+            // two and a half round trips: every conversion re-encodes the nesting in the priorities
+            "flat_to_deep_to_flat_to_deep_to_flat",
+            Box::new(|| {
+                let f = ex_msg(F::parse(text_ref))?;
+                let f = ex_msg(F::from_deepex(ex_msg(f.to_deepex())?))?;
+                let f = ex_msg(F::from_deepex(ex_msg(f.to_deepex())?))?;
+                ex_msg(f.eval(&vals))
+            }),
+        ),
+        (
+            "deep_to_flat_to_deep_to_flat_to_deep",
+            Box::new(|| {
+                let d = ex_msg(D::parse(text_ref))?;
+                let d = ex_msg(ex_msg(F::from_deepex(d))?.to_deepex())?;
+                let d = ex_msg(ex_msg(F::from_deepex(d))?.to_deepex())?;
+                ex_msg(d.eval(&vals))
+            }),
+        ),
     ];
     for (label, f) in forms.iter() {
         if n_operands > 1000 && !label.starts_with("flat") {
             continue;
         }
-        if !conversions && label.contains("to_deep") {
+        if label.contains("to_flat_to") && n_operands > 300 {
+            // repeated conversions nest one level per operator and recurse on it
+            continue;
+        }
+        if !conversions && (label.contains("to_deep") || label.contains("to_flat_to")) {
             // flat -> deep is quadratic in the chain length; long chains take this route for a sample only
             continue;
         }
